@@ -43,6 +43,7 @@ type DrvQuery struct {
 	Text S     `json:"query"`
 	Args []Arg `json:"args,omitempty"`
 	Via  string `json:"via,omitempty"` // "" = DB.Query, "stmt" = DB.Prepare + Stmt.Query
+	More [][]Arg `json:"more,omitempty"` // Via "stmt": further executions of the SAME prepared statement with these arguments
 }
 
 // exprTextTop prints an expression in the query language (own printer, independent of the
@@ -315,6 +316,32 @@ func runDB(db *sql.DB, dq DrvQuery) (out *sqlOut) {
 		out = &sqlOut{Panic: p}
 	}
 	return out
+}
+
+// runSeries prepares dq once and executes it with dq.Args and then with every list of dq.More.
+func runSeries(db *sql.DB, dq DrvQuery) (outs []*sqlOut) {
+	n := 1 + len(dq.More)
+	fill := func(o *sqlOut) []*sqlOut {
+		for len(outs) < n {
+			outs = append(outs, o)
+		}
+		return outs
+	}
+	if p := guard(func() {
+		st, err := db.Prepare(string(dq.Text))
+		if err != nil {
+			fill(&sqlOut{Err: err.Error()})
+			return
+		}
+		defer st.Close()
+		outs = append(outs, readRows(st.Query(anyArgs(dq.Args)...)))
+		for _, a := range dq.More {
+			outs = append(outs, readRows(st.Query(anyArgs(a)...)))
+		}
+	}); p != "" {
+		fill(&sqlOut{Panic: p})
+	}
+	return outs
 }
 
 // runOverlapped issues both queries before reading either result set, then reads the two
